@@ -457,8 +457,6 @@ class Engine(object):
             if a.kind == b.kind and a.py == b.py:
                 return z3.BoolVal(True)
             raise Undecided("comparison of python-side values %r %r" % (a, b))
-        if a.kind == "int" and b.kind == "int":
-            return self.as_int(a) == self.as_int(b)
         if not identity:
             # Status.__eq__ accepts strings (compare by name)
             for x, y in ((a, b), (b, a)):
